@@ -9,8 +9,9 @@ CONSTANTS
   BodyMode = "len"
   StyleMode = "one"
   PhraseMode = "reg"
+  ManyMode = "quick"
   MaxBig = 17
-INIT CookieInit
+INIT ExtraInit
 NEXT GenNext
-INVARIANT CookieInv
+INVARIANT ExtraInv
 CHECK_DEADLOCK FALSE
